@@ -45,6 +45,87 @@ def grid(ctx):
     return mods, flags, tags, thr
 
 
+REAL_SRC = """package p
+
+import (
+	"strings"
+	"time"
+)
+
+func F%(n)s(xs []int, t time.Time) (string, time.Duration) {
+	for _ = range xs {
+	}
+	return strings.Title("x"), t.Sub(time.Now())
+}
+"""
+# (check, message fragment, bound kind, threshold source)
+REAL = [("S1005", "unnecessary assignment to the blank identifier", "minlang", "go1.4"),
+        ("S1024", "time.Until", "minstd", "go1.8"),
+        ("SA1019", "strings.Title", "minstd", "dep:strings.Title")]
+
+
+def real_checks(ctx, probe):
+    """The version-restricted checks that exist in the tree (S1005, S1024, SA1019), through
+    the real staticcheck binary, against the model."""
+    sc = vlib.build_repo_cmd(ctx, "./cmd/staticcheck")
+    rc, so, se = vlib.run([probe, "-deprecations", "strings.Title"], env=vlib.go_env())
+    dep = dict(l.split() for l in so.strip().splitlines())
+    if any(v == "-" for v in dep.values()):
+        raise vlib.HarnessError("knowledge.StdlibDeprecations lacks strings.Title: %s" % dep)
+    # `-go 1.N` also applies to the dependencies, and std no longer type-checks below ~go1.23, so
+    # the real checks are exercised through the module's go directive (and -go at the toolchain's
+    # own version, which must override the directive).
+    mods = ["1.3", "1.4", "1.7", "1.8", "1.17", "1.18", "1.22"] if ctx.quick else \
+        ["1.3", "1.4", "1.5", "1.7", "1.8", "1.9", "1.16", "1.17", "1.18", "1.19", "1.20", "1.21", "1.22", "1.23"]
+    flags = [None] if ctx.quick else [None, "1.26"]
+    tags = [None, "go1.20"]
+    jobs = []
+    for mi, m in enumerate(mods):
+        gm = ctx.path("real", "r%d" % mi, "go.mod")
+        open(gm, "w").write("module example.com/r%d\n\ngo %s\n" % (mi, m))
+        for ti, t in enumerate(tags):
+            with open(os.path.join(os.path.dirname(gm), "f%d.go" % ti), "w") as f:
+                f.write(("//go:build %s\n\n" % t if t else "") + REAL_SRC % {"n": ti})
+        for fl in flags:
+            jobs.append((os.path.dirname(gm), m, fl))
+    cache0 = ctx.path("realcache", "x")
+
+    def one(job):
+        md, m, fl = job
+        e = vlib.go_env({"STATICCHECK_CACHE": os.path.dirname(cache0)})
+        cmd = [sc, "-f", "json", "-checks", "S1005,S1024,SA1019"] + (["-go", fl] if fl else []) + ["./..."]
+        rc, so, se = vlib.run(cmd, cwd=md, env=e, timeout=900)
+        if rc not in (0, 1):
+            raise vlib.HarnessError("staticcheck failed (%d) in %s -go %s: %s" % (rc, md, fl, se[-800:]))
+        got = []
+        for line in so.splitlines():
+            j = json.loads(line)
+            got.append((os.path.basename(j["location"]["file"]), j["code"], j["message"]))
+        return job, got
+
+    first = one(jobs[0])  # warms the shared cache with the facts of std
+    with ThreadPoolExecutor(max_workers=8) as ex:
+        results = [first] + list(ex.map(one, jobs[1:]))
+    lines, meta = [], []
+    for (md, m, fl), got in results:
+        for ti, t in enumerate(tags):
+            for (code, frag, kind, thr) in REAL:
+                thr = dep[thr[4:]] if thr.startswith("dep:") else thr
+                impl = any(fn == "f%d.go" % ti and c == code and frag in msg for fn, c, msg in got)
+                lines.append("probe %s go%s %s %s %s %s" % ("go" + fl if fl else "-", m, t or "-", TOOLCHAIN, kind, thr))
+                meta.append({"module_go": m, "flag_go": fl, "file_tag": t, "check": code, "what": frag, "bound": kind,
+                             "threshold": thr, "reported_by_real_code": impl})
+    model = vlib.run_model(ctx, "C20", lines)
+    diffs = []
+    for mt, mo in zip(meta, model):
+        if mo == "bad-op":
+            raise vlib.HarnessError("model rejected a real-check line")
+        mt["in_range_per_spec"] = (mo == "1")
+        if mt["reported_by_real_code"] != mt["in_range_per_spec"]:
+            diffs.append(mt)
+    return diffs, len(lines), len(jobs), meta[:3]
+
+
 def run(ctx):
     lean_ok, lean_broke = vlib.std_lean_phase(ctx, MODULES, THEOREMS)
     probe = vlib.build_harness(ctx, "probe20")
@@ -144,8 +225,10 @@ def run(ctx):
             if impl != mo:
                 diffs_eff.append({"module_go": m, "flag_go": fl, "file_tag": t, "impl_lang_std": impl, "model_lang_std": mo})
 
+    real_diffs, real_n, real_runs, real_samples = real_checks(ctx, probe)
     ctx.coverage.update({
-        "evaluations": len(lines),
+        "real_check_points": real_n, "real_check_runs": real_runs, "real_check_samples": real_samples,
+        "evaluations": len(lines) + real_n,
         "distinct_nontrivial": len(nontrivial),
         "rule": "complete grid module-go x file-tag x -go x bound-kind x threshold run through the real runner; "
                 "non-trivial = (module, flag, tag, kind) column in which at least one threshold is out of range",
@@ -160,6 +243,17 @@ def run(ctx):
         "toolchain release tag go1.26 (no module => newest release tag) is not exercised: every generated module has a go directive",
     ]
 
+    if real_diffs:
+        by = {}
+        for d in real_diffs:
+            by.setdefault(d["check"] + "_" + d["what"].split(".")[-1].split()[0], []).append(d)
+        for k, ds in sorted(by.items()):
+            ctx.violation("real_%s.json" % k, {
+                "what": "a version-restricted problem of an existing check is reported outside / dropped inside its version range",
+                "how_to_replay": "module `go <module_go>`, file (with `//go:build <file_tag>`) containing: " + REAL_SRC % {"n": 0} +
+                                 " ; staticcheck -checks S1005,S1024,SA1019 [-go <flag_go>] ./...",
+                "first": ds[0], "count": len(ds), "cases": ds[:40]},
+                text="C20: %d real-check grid points disagree with the spec, e.g. %s" % (len(ds), ds[0]))
     if diffs_probe:
         # the model is proved equal to the spec, so a probe disagreement is a failing input
         by = {}
@@ -172,7 +266,7 @@ def run(ctx):
                 "first": ds[0], "count": len(ds), "cases": ds[:50],
                 "setter_tie": setter_diffs,
             }, text="C20: %d grid points disagree with report_iff_in_range for bound %s, e.g. %s" % (len(ds), k, ds[0]))
-    elif diffs_eff or setter_diffs or not lean_ok:
+    elif not real_diffs and (diffs_eff or setter_diffs or not lean_ok):
         ctx.violation("correspondence.json", {
             "what": "model no longer corresponds to the code (or a proof no longer checks) but no probe is mis-reported on the grid",
             "effective_version_diffs": diffs_eff[:50], "setter_diffs": setter_diffs, "lean": lean_broke,
